@@ -25,6 +25,7 @@ import (
 	"testing/synctest"
 
 	"github.com/ipfs/go-log/v2"
+	"golang.org/x/crypto/sha3"
 
 	"github.com/keep-network/keep-core/pkg/chain"
 	"github.com/keep-network/keep-core/pkg/internal/tecdsatest"
@@ -82,6 +83,8 @@ type c47Seat struct {
 	observed      bool // the chain told it the work is no longer awaited
 	pending       bool
 	nSigs         int
+	sign          chain.Signing                // C13 only
+	lastSigs      map[group.MemberIndex][]byte // C13 only: map handed to Assemble*
 	stateFault    bool
 	submitFault   bool
 	invalid       bool
@@ -109,6 +112,24 @@ type c47World struct {
 	params    *DKGParameters
 	submitter int
 	subBlock  uint64
+
+	quiet     bool // C13: no C47 oracle at submission
+	quietSubs []*c47Seat
+	onSubmit  func(s *c47Seat)
+}
+
+// drainQuiet hands the submissions recorded since the last call to onSubmit,
+// in seat order (simulator goroutine, at quiescence).
+func (w *c47World) drainQuiet() {
+	w.mu.Lock()
+	subs := w.quietSubs
+	w.quietSubs = nil
+	w.mu.Unlock()
+	sort.Slice(subs, func(a, b int) bool { return subs[a].idx < subs[b].idx })
+	for _, s := range subs {
+		w.r.Logf("submit seat=%d sigs=%d", s.idx, len(s.lastSigs))
+		w.onSubmit(s)
+	}
 }
 
 // c47Blocks is the per-seat view of the node's block counter: it records the
@@ -138,6 +159,16 @@ func (c *c47Chain) BlockCounter() (chain.BlockCounter, error) {
 	return c.nd.blocks, nil
 }
 
+func (c *c47Chain) Signing() chain.Signing { return c.s.sign }
+
+func (c *c47Chain) CalculateDKGResultSignatureHash(pub *ecdsa.PublicKey, misbehaved []group.MemberIndex, startBlock uint64) (dkg.ResultSignatureHash, error) {
+	return sha3.Sum256([]byte(fmt.Sprint(pub, misbehaved, startBlock))), nil
+}
+
+func (c *c47Chain) CalculateInactivityClaimHash(cl *inactivity.ClaimPreimage) (inactivity.ClaimHash, error) {
+	return sha3.Sum256([]byte(fmt.Sprint(cl.Nonce, cl.WalletPublicKey, cl.InactiveMembersIndexes, cl.HeartbeatFailed))), nil
+}
+
 // --- DKG result submission
 
 func (c *c47Chain) GetDKGState() (DKGState, error) {
@@ -160,6 +191,9 @@ func (c *c47Chain) GetDKGState() (DKGState, error) {
 
 func (c *c47Chain) AssembleDKGResult(submitter group.MemberIndex, pub *ecdsa.PublicKey, operating []group.MemberIndex,
 	misbehaved []group.MemberIndex, sigs map[group.MemberIndex][]byte, gsr *GroupSelectionResult) (*DKGChainResult, error) {
+	if c.s != nil {
+		c.s.lastSigs = sigs
+	}
 	return &DKGChainResult{SubmitterMemberIndex: submitter, GroupPublicKey: []byte{1, 2, 3}, SigningMembersIndexes: operating}, nil
 }
 
@@ -175,6 +209,14 @@ func (c *c47Chain) submitCommon(what string, asIdx int) error {
 	w, s := c.w, c.s
 	height := c.nd.blocks.Height()
 	s.submits++
+	if w.quiet {
+		// several seats may get here in the same instant: only record, the
+		// simulator evaluates the records in seat order at quiescence
+		w.mu.Lock()
+		w.quietSubs = append(w.quietSubs, s)
+		w.mu.Unlock()
+		return nil
+	}
 	w.r.Logf("%s seat=%d node=%d at=%d refs=%v slots=%v notified=%v observed=%v accepted=%v", what, s.idx, c.nd.i, height, s.refs, s.slots, s.notified, s.observed, w.accepted)
 	cls := "C47:tbtc-" + w.mode
 	if asIdx != s.idx {
@@ -229,6 +271,7 @@ func (c *c47Chain) GetInactivityClaimNonce(id [32]byte) (*big.Int, error) {
 }
 
 func (c *c47Chain) AssembleInactivityClaim(id [32]byte, inactive []group.MemberIndex, sigs map[group.MemberIndex][]byte, hb bool) (*InactivityClaim, error) {
+	c.s.lastSigs = sigs
 	return &InactivityClaim{WalletID: id, InactiveMembersIndices: inactive, HeartbeatFailed: hb}, nil
 }
 
@@ -631,5 +674,4 @@ func c47Run(t *testing.T, r *verifsim.Run) {
 	if subs > 0 {
 		r.Probe("some-seat-submitted-" + w.mode)
 	}
-	_ = fmt.Sprintf
 }
